@@ -90,12 +90,14 @@ let run_line (line : string) : string =
   let items = Sexp.list (Sexp.parse line) in
   let steps = section "steps" items in
   let st = ref init in
+  let hist = ref [] in
   let out = Buffer.create 256 in
   Buffer.add_string out "(model (steps";
   List.iter (fun item ->
       match item with
       | Sexp.List [Sexp.Atom "term"; p] ->
         st := step !st (ETerminate (natom p));
+        hist := ETerminate (natom p) :: !hist;
         Buffer.add_string out (Printf.sprintf " (term %s)" (Sexp.atom p))
       | Sexp.List (Sexp.Atom "ev" :: ev :: rest) ->
         let real_calls = section "calls" rest in
@@ -114,14 +116,27 @@ let run_line (line : string) : string =
           | _ -> (EOther, Sexp.to_string ev) in
         let calls = new_calls !st e in
         st := step !st e;
+        hist := e :: !hist;
         Buffer.add_string out (Printf.sprintf " (ev %s %s %s)" text (calls_text calls) (own_text (!st).owner))
       | _ -> failwith "bad step") steps;
   let s = !st in
   let ns l = String.concat "" (List.map (fun p -> " " ^ string_of_n p) l) in
+  let h = List.rev !hist in
+  let b x = if x then "true" else "false" in
+  let rec nodup = function [] -> true | x :: t -> not (List.mem x t) && nodup t in
+  let f10 = List.filter_map (fun (r, p) ->
+      if memb p s.dead then
+        let (rep, giv) = f10_scan p r init false false h in
+        Some (Printf.sprintf " (%s %s %s %s)" (string_of_n r) (string_of_n p) (b rep) (b giv))
+      else None) s.owner in
   Buffer.add_string out
-    (Printf.sprintf ") (final %s) (dead%s) (pending%s) (next %s) (closes%s))" (own_text s.owner)
+    (Printf.sprintf ") (final %s) (dead%s) (pending%s) (next %s) (closes%s) (classes (early %s) (f47 %s) (f48 %s) (f49 %s) (fresh %s)) (f10%s))"
+       (own_text s.owner)
        (ns (List.sort compare s.dead |> List.sort_uniq compare)) (ns s.pending) (string_of_n s.next_pid)
-       (ns (closes s.log)));
+       (ns (closes s.log))
+       (b (anyb early_reportb init h)) (b (anyb stale_useb init h)) (b (anyb stale_transferb init h))
+       (b (anyb foreign_transferb init h)) (b (nodup (List.map int_of_n (issued h))))
+       (String.concat "" f10));
   Buffer.contents out
 
 let () =
